@@ -257,7 +257,24 @@ func (e *Engine) staticCall(f *frame, st *State, fn *ssa.Function, args []Val, b
 		e.shareArgs(st, fn, fn.Signature, append(append([]Val{}, args...), binds...), key, pos)
 		e.checkDefaultPre(st, fn, nil, args, key, pos)
 		e.note("call of " + key + " without contract: results unconstrained, its static mod-set havocked")
-		e.havocFamilies(st, ms.list())
+		fams := ms.list()
+		if keys, ok := e.streamArgsOnly(fn, args); ok && !ms.all {
+			// the callee can reach no stream except the ones handed to it: only those are havocked
+			var rest []string
+			for _, fm := range fams {
+				if fm != "G<stream>" {
+					rest = append(rest, fm)
+				}
+			}
+			if len(rest) != len(fams) {
+				fams = rest
+				for _, k := range keys {
+					e.havocStream(st, k.key, k.read, k.write)
+				}
+				e.note("callees without contract whose parameters cannot hold a reader or writer other than the ones passed directly touch only those streams (no package-level variable of the codec packages holds a stream)")
+			}
+		}
+		e.havocFamilies(st, fams)
 		return e.havocResult(st, fn.Name(), rt)
 	}
 	if pp := pkgPathOf(fn); strings.HasPrefix(pp, "github.com/rs/zerolog") {
@@ -369,6 +386,11 @@ func (e *Engine) builtin(f *frame, st *State, b *ssa.Builtin, cc *ssa.CallCommon
 	switch b.Name() {
 	case "len":
 		a := args[0]
+		if ci, ok := e.chanInfoOf(cc.Args[0].Type()); ok && e.AbstractConc {
+			_, ln, _, _ := e.chanArrs(st, ci)
+			e.chanValid(st, ci, a.Terms[0])
+			return Val{Typ: rt, Terms: []*smt.Term{c.Select(ln, a.Terms[0])}}
+		}
 		switch types.Unalias(cc.Args[0].Type()).Underlying().(type) {
 		case *types.Slice:
 			return Val{Typ: rt, Terms: []*smt.Term{a.Terms[2]}}
@@ -389,6 +411,18 @@ func (e *Engine) builtin(f *frame, st *State, b *ssa.Builtin, cc *ssa.CallCommon
 	case "cap":
 		if isSlice(cc.Args[0].Type()) {
 			return Val{Typ: rt, Terms: []*smt.Term{args[0].Terms[3]}}
+		}
+		if ci, ok := e.chanInfoOf(cc.Args[0].Type()); ok && e.AbstractConc {
+			_, _, cp, _ := e.chanArrs(st, ci)
+			return Val{Typ: rt, Terms: []*smt.Term{c.Select(cp, args[0].Terms[0])}}
+		}
+	case "close":
+		if e.AbstractConc && e.closeChan(f, st, cc.Args[0].Type(), args[0], pos) {
+			return Val{Typ: rt}
+		}
+		if e.AbstractConc {
+			e.note("close of an unmodelled channel is ignored (channels of non-scalar elements are opaque)")
+			return Val{Typ: rt}
 		}
 	case "append":
 		return e.appendModel(f, st, cc, args, rt, pos)
@@ -608,4 +642,98 @@ func (e *Engine) ownBulk(st *State, el types.Type, src Val, srcIsString bool, po
 	}
 	c := e.C
 	e.oblige(st, "own", "", c.Or(c.Eq(src.Terms[2], c.BVLit64(0, 64)), e.isFresh(src.Terms[0])), pos, what+" of reference-typed elements copies them shallowly (shares them with the original)")
+}
+
+// havocStream forgets position and/or (append-only) contents of one stream.
+func (e *Engine) havocStream(st *State, key *smt.Term, read, write bool) {
+	c := e.C
+	if write {
+		oldCnt := e.ghostGet(st, gCount, key)
+		oldW := e.ghostGet(st, gWData, key)
+		newCnt := c.Fresh("havoc.count", smt.BV(64))
+		chunk := c.Fresh("havoc.chunk", bytesInner)
+		newW := c.App("arr.splice."+sortTag(smt.BV(8)), bytesInner, oldW, oldCnt, chunk, c.BVLit64(0, 64), bvsub(c, newCnt, oldCnt))
+		e.ghostSet(st, gCount, key, newCnt)
+		e.ghostSet(st, gWData, key, newW)
+		e.assume(st, bvle(c, oldCnt, newCnt))
+	}
+	if read {
+		e.ghostSet(st, gPos, key, c.Fresh("havoc.pos", smt.BV(64)))
+	}
+}
+
+type streamArg struct {
+	key         *smt.Term
+	read, write bool
+}
+
+// streamArgsOnly: every parameter of fn is either a stream handed over directly (io.Reader, io.Writer, *bytes.Buffer,
+// *bytes.Reader) or of a type that cannot hold a stream; returns the keys of the former.
+func (e *Engine) streamArgsOnly(fn *ssa.Function, args []Val) ([]streamArg, bool) {
+	if len(fn.FreeVars) > 0 {
+		return nil, false
+	}
+	var keys []streamArg
+	for i, p := range fn.Params {
+		if i >= len(args) {
+			return nil, false
+		}
+		switch typeStr(p.Type()) {
+		case "io.Reader", "*bytes.Reader", "io.ByteReader":
+			keys = append(keys, streamArg{streamKey(args[i]), true, false})
+			continue
+		case "io.Writer", "io.ByteWriter":
+			keys = append(keys, streamArg{streamKey(args[i]), false, true})
+			continue
+		case "*bytes.Buffer":
+			keys = append(keys, streamArg{streamKey(args[i]), true, true})
+			continue
+		}
+		if !e.W.typeNoStream(p.Type(), map[string]bool{}) {
+			return nil, false
+		}
+	}
+	return keys, true
+}
+
+// typeNoStream: no value of type t can hold (a reference to) a reader or writer.
+func (w *World) typeNoStream(t types.Type, seen map[string]bool) bool {
+	ts := typeStr(t)
+	if seen[ts] {
+		return true
+	}
+	seen[ts] = true
+	if strings.HasPrefix(ts, "*bytes.") || strings.HasPrefix(ts, "bytes.") || strings.HasPrefix(ts, "io.") || strings.HasPrefix(ts, "*io.") || strings.HasPrefix(ts, "net.Conn") || strings.HasPrefix(ts, "*bufio.") {
+		return false
+	}
+	switch u := types.Unalias(t).Underlying().(type) {
+	case *types.Basic:
+		return true
+	case *types.Pointer:
+		return w.typeNoStream(u.Elem(), seen)
+	case *types.Slice:
+		return w.typeNoStream(u.Elem(), seen)
+	case *types.Array:
+		return w.typeNoStream(u.Elem(), seen)
+	case *types.Map:
+		return w.typeNoStream(u.Key(), seen) && w.typeNoStream(u.Elem(), seen)
+	case *types.Struct:
+		for i := 0; i < u.NumFields(); i++ {
+			if !w.typeNoStream(u.Field(i).Type(), seen) {
+				return false
+			}
+		}
+		return true
+	case *types.Interface:
+		if externalIface(t) {
+			return ts == "error"
+		}
+		for _, impl := range w.implementers(u) {
+			if !w.typeNoStream(impl, seen) {
+				return false
+			}
+		}
+		return true
+	}
+	return false
 }
